@@ -5,6 +5,7 @@ exit 1  a replayed, unlisted violation:  VIOLATION property=<id> replay=<path>
 exit 2  harness error / inconclusive (solver unknown, timeout, non-reproducing counterexample)
 """
 import argparse
+from fractions import Fraction
 import fnmatch
 import hashlib
 import importlib
@@ -262,7 +263,18 @@ def main(argv=None):
         c['replay'] = rp
         if not rp.get('reproduced'):
             # z3's model may sit on a tolerance boundary floats cannot resolve: try the generic candidate(s) as well
-            for am in c.get('alt_models') or []:
+            cands = list(c.get('alt_models') or [])
+            # stress candidates: the same values at micro / huge scale (printed in exponent notation, far from 1.0).
+            # A replay is an ordinary concrete test of the obligations, so any candidate that fails them is genuine.
+            base = (c.get('alt_models') or [c['model']])[0]       # the generic candidate has no zero entries
+            for fac in (Fraction(1, 2 ** 20), Fraction(2 ** 24)):
+                try:
+                    # (harness convention: point coordinates have upper-case names; parameters, knots, weights lower-case)
+                    cands.append({k: str(Fraction(v) * fac) if k[:1].isupper() else str(v) for k, v in base.items()})
+                    cands.append({k: str(Fraction(v) * fac) for k, v in base.items()})
+                except Exception:
+                    pass
+            for am in cands:
                 rp2 = replay_subprocess(pid, r['instance'], am)
                 if rp2.get('reproduced'):
                     c['model'], c['replay'] = am, rp2
